@@ -195,6 +195,59 @@ def lock_skeleton(fn: ast.FunctionDef, subject: str):
     return out
 
 
+def doc_examples():
+    """The literal native-format documents of docs/sphinx/ug_serialize.rst: every
+    indented literal block that is a JSON object with a "meta" and a "nodes"
+    member.  The guide writes one of them with a trailing comma inside an
+    object; `,` directly before a closing brace/bracket is dropped, nothing
+    else is touched.  Fail closed if fewer than 4 are found."""
+    import json
+    import re
+
+    rst = (REPO / "docs" / "sphinx" / "ug_serialize.rst").read_text(encoding="utf8").splitlines()
+    blocks = []
+    i = 0
+    while i < len(rst):
+        if rst[i].rstrip() == "    {":
+            j = i
+            while j < len(rst) and rst[j].rstrip() != "    }":
+                if rst[j].strip() and not rst[j].startswith("    "):
+                    break
+                j += 1
+            if j < len(rst) and rst[j].rstrip() == "    }":
+                blocks.append("\n".join(rst[i:j + 1]))
+                i = j
+        i += 1
+    docs = []
+    for b in blocks:
+        if '"meta"' not in b or '"nodes"' not in b:
+            continue
+        norm = re.sub(r",(\s*[}\]])", r"\1", b)
+        try:
+            docs.append(json.loads(norm, object_pairs_hook=lambda kv: ("dict", kv)))
+        except ValueError as e:
+            raise Unsupported(f"ug_serialize.rst: example document is not JSON: {e}")
+    if len(docs) < 4:
+        raise Unsupported(f"ug_serialize.rst: expected 4 native-format example documents, found {len(docs)}")
+    return docs
+
+
+def gjson(v) -> str:
+    if v is None:
+        return "GNull"
+    if isinstance(v, bool):
+        return f"(GBool {'true' if v else 'false'})"
+    if isinstance(v, int):
+        return f"(GInt ({v})%Z)"
+    if isinstance(v, str):
+        return f"(GStr {text(v)})"
+    if isinstance(v, list):
+        return "(GList [" + "; ".join(gjson(x) for x in v) + "])"
+    if isinstance(v, tuple) and v[0] == "dict":
+        return "(GDict [" + "; ".join(f"({text(k)}, {gjson(x)})" for k, x in v[1]) + "])"
+    raise Unsupported(f"example document: unsupported JSON value {v!r}")
+
+
 def ev_list(evs):
     m = {"A": "Acq", "L": "Rel", "R": "Read", "C": "Call"}
     return "[" + "; ".join(m[e] for e in evs) + "]"
@@ -252,6 +305,20 @@ def main():
         v = class_assign(cls, "DEFAULT_VALUE_MAP")
         if not (isinstance(v, ast.Dict) and not v.keys):
             raise Unsupported(f"{nm} DEFAULT_VALUE_MAP is not an empty dict literal")
+        lines.append(f"Definition {nm}_VALUE_MAP : list (list Z * list (list Z)) := [].")
+    # FileSystemTree must not override DEFAULT_VALUE_MAP (it inherits Tree's)
+    if any(isinstance(n, ast.Assign) and isinstance(n.targets[0], ast.Name) and n.targets[0].id == "DEFAULT_VALUE_MAP"
+           for n in class_def(fs, "FileSystemTree").body):
+        raise Unsupported("FileSystemTree overrides DEFAULT_VALUE_MAP")
+
+    # --- literal example documents of the user guide (C12)
+    lines.append("")
+    lines.append("Inductive gjson := GNull | GBool (b : bool) | GInt (z : Z) | GStr (s : list Z)")
+    lines.append("  | GList (l : list gjson) | GDict (d : list (list Z * gjson)).")
+    docs = doc_examples()
+    for i, d in enumerate(docs):
+        lines.append(f"Definition DOC_EXAMPLE_{i} : gjson := {gjson(d)}.")
+    lines.append("Definition DOC_EXAMPLES : list gjson := [" + "; ".join(f"DOC_EXAMPLE_{i}" for i in range(len(docs))) + "].")
 
     # --- enums
     def enum_members(mod, name):
